@@ -395,10 +395,20 @@ def fsqrt(ex, x):
         if rn * rn == n and rd * rd == d: return Fraction(rn, rd)
         x = R(x)
     ex.sqrts.append((ex.pc_term(), x, cur))
-    sv = ex.fresh_real('sqrt')
+    # sqrt as an uninterpreted function with its defining axiom instantiated at this argument:
+    # equal arguments give equal roots by congruence
+    try:
+        from . import rcore
+        cx = rcore.Canon()
+        x = cx.term(cx.poly(x))
+    except Exception:
+        pass
+    sv = FSQRT(x)
     ex.defs.append(z3.Implies(x >= 0, z3.And(sv >= 0, sv * sv == x)))
-    ex.sqrt_vars = getattr(ex, 'sqrt_vars', []) + [(sv, x)]
     return sv
+
+
+FSQRT = z3.Function('fsqrt', z3.RealSort(), z3.RealSort())
 
 
 def bar_get(ex, ptr, tr, meth):
